@@ -8,18 +8,22 @@ Import ListNotations.
 
 (* op = (is_find, (k, v)); finds are accumulated in reverse chronological order, exactly as the
    Gluon driver in harness/src/bin/c19.rs does *)
-Fixpoint zmap_go (ops : list (bool * (Z * Z))) (m : Map Z Z) (acc : list (option Z))
-  : list (option Z) * Map Z Z :=
+Fixpoint zmap_go (ops : list (bool * (Z * Z))) (m m2 : Map Z Z) (acc : list (option Z))
+  : list (option Z) * Map Z Z * Map Z Z :=
   match ops with
-  | [] => (acc, m)
-  | (true, (k, _)) :: r => zmap_go r m (MapGen.find Z.compare k m :: acc)
-  | (false, (k, v)) :: r => zmap_go r (MapGen.insert Z.compare k v m) acc
+  | [] => (acc, m, m2)
+  | (true, (k, v)) :: r =>
+      zmap_go r m (MapGen.insert Z.compare k v m2) (MapGen.find Z.compare k m :: acc)
+  | (false, (k, v)) :: r => zmap_go r (MapGen.insert Z.compare k v m) m2 acc
   end.
 
+(* last component: to_list (append m (map_with_key (fun k _ => k) m2)), m2 = the map of the
+   (k, v) carried by the find operations *)
 Definition zmap_run (ops : list (bool * (Z * Z)))
-  : list (option Z) * list (Z * Z) * list Z * list Z :=
-  let '(finds, m) := zmap_go ops Tip [] in
-  (finds, MapGen.to_list m, MapGen.keys m, MapGen.values m).
+  : list (option Z) * list (Z * Z) * list Z * list Z * list (Z * Z) :=
+  let '(finds, m, m2) := zmap_go ops Tip Tip [] in
+  (finds, MapGen.to_list m, MapGen.keys m, MapGen.values m,
+   MapGen.to_list (MapGen.append Z.compare m (MapGen.map_with_key (fun k _ => k) m2))).
 
 Definition zsort (xs : list Z) : fuelled (list Z) := sort Z.compare xs.
 Definition zfilter_gt (c : Z) (xs : list Z) : list Z := ListGen.filter (fun x => Z.gtb x c) xs.
